@@ -236,9 +236,11 @@ def _zero(v) -> bool:
   return False
 
 
-def live_writes(db: DB, entries, flag: str, value: bool, fields: Set[str]) -> Dict[str, List[str]]:
+def live_writes(db: DB, entries, flag: str, value: bool, fields: Set[str], atoms: Optional[Dict[str, bool]] = None) -> Dict[str, List[str]]:
   """field -> witnesses of writes that may execute with a non-zero value although the flag is set that way."""
   env = FlagEnv(flag, value)
+  if atoms:
+    env.atoms.update(atoms)
   out: Dict[str, List[str]] = {f: [] for f in fields}
   total: Dict[str, int] = {f: 0 for f in fields}
   for entry in entries:
@@ -429,4 +431,102 @@ def check_module_flags(res, sm, table, modules=None) -> int:
         f"{mod.name}|consults|{flag}",
         Finding("R-FLAGS.6", f"{mod.name}|{flag}|new-flag-consulted", f"{mod.name}.py now tests {flag}, which this stage does not consult on the confirmed tree (it consults {sorted(allowed) or 'no flags'}): the flag acquires an effect on this stage's outputs that MuJoCo's flag does not have", f"{mod.path}:{ln}"),
       )
+  return n
+
+
+def _live_components(db: DB, entries, flag: str, fields, atoms):
+  """like live_writes, per component of vector-valued fields (`energy[w][0]` and `energy[w][1]` are separate results):
+  {field or field[c]: witnesses of reachable non-zero writes}, {same: writes examined}"""
+  from .r_order import ALL, _vec_components
+
+  env = FlagEnv(flag, True)
+  env.atoms.update(atoms)
+  comps: Dict[str, Set] = {f: set() for f in fields}
+  events = []
+  for entry in entries:
+    for e in effects.trace_effects(db, db.trace(entry)):
+      keys = set(e.writes) & set(fields)
+      if not keys or e.lc is None:
+        continue
+      for a in e.lc.keval.accesses:
+        if not a.is_write:
+          continue
+        k = array_key(e.lc, a.root)
+        if k not in keys or (a.kind == "w" and _zero(a.value)):
+          continue
+        if a.is_atomic or getattr(a, "aug", False):
+          cs = _vec_components(a.value)
+        elif getattr(a, "component", False) and len(getattr(a, "comp_idx", ())) == 1 and isinstance(a.comp_idx[0], T) and a.comp_idx[0].op == "c":
+          cs = {a.comp_idx[0].args[0]}
+        else:
+          cs = {ALL}
+        comps[k] |= cs
+        events.append((k, cs, e, a))
+  out, total = {}, {}
+  for f in fields:
+    parts = sorted(c for c in comps[f] if c != ALL) if comps[f] and ALL not in comps[f] else [ALL]
+    for c in parts:
+      name = f if c == ALL else f"{f}[{c}]"
+      out[name], total[name] = [], 0
+      for k, cs, e, a in events:
+        if k != f or not (c in cs or ALL in cs or c == ALL):
+          continue
+        total[name] += 1
+        env.lc = e.lc
+        if env.pc_host(e.ev.pc) is False or env.pc_kernel(a.pc) is False:
+          continue
+        out[name].append(f"{e.lc.name}@{a.loc}")
+  return out, total
+
+
+def check_keeps_cases(res, db: DB, entries, flag: str, fields, assume_enabled=()) -> int:
+  """R-FLAGS.2b: FLAG_KEEPS with a case split over model-determined host conditions. With only `flag` set (and the enable
+  flags of `assume_enabled` on), for every model atom X that the host paths to the writers of the field test (`if
+  m.sensor_e_potential:` / `== 0`) and for both truth values of X, some non-zero write of the field must stay reachable.
+  A stage that is skipped under the flag while another stage assumes "the skipped one computed it" (decided by a MODEL
+  property rather than by what actually ran) leaves the field undefined for exactly one value of X."""
+  from ..report import Finding
+
+  fields = set(fields)
+  # discover the enable tests' canonical texts and the model atoms on the writers' host paths
+  base_env = FlagEnv(flag, True)
+  enable_atoms: Dict[str, bool] = {}
+  model_atoms: Set[str] = set()
+  for entry in entries:
+    for e in effects.trace_effects(db, db.trace(entry)):
+      if not (set(e.writes) & fields):
+        continue
+      for text, _ in e.ev.pc:
+        for en in assume_enabled:
+          if en in text and "disableflags" not in text:
+            enable_atoms[text.strip("()") if False else text] = True
+        for a in base_env.unknown_atoms(text):
+          a0 = a.strip()
+          while a0.startswith("(") and a0.endswith(")"):
+            a0 = a0[1:-1].strip()
+          for suf in (" == 0", " != 0"):
+            if a0.endswith(suf):
+              a0 = a0[: -len(suf)].strip()
+          if a0.startswith("m.") and "flags" not in a0 and "(" not in a0:
+            model_atoms.add(a0)
+  n = 0
+  for x in sorted(model_atoms):
+    for v in (False, True):
+      atoms = dict(enable_atoms)
+      for form, val in ((x, v), (f"{x} == 0", not v), (f"({x} == 0)", not v), (f"{x} != 0", v), (f"({x} != 0)", v), (f"not {x}", not v)):
+        atoms[form] = val
+      wit, total = _live_components(db, entries, flag, fields, atoms)
+      for f in sorted(wit):
+        n += 1
+        res.ob(
+          bool(wit[f]),
+          f"{flag}|keeps|{f}|{x}={v}",
+          Finding(
+            "R-FLAGS.2",
+            f"{flag}|{f}|not-computed-when|{x}={'set' if v else 'zero'}",
+            f"with {flag} set ({', '.join(assume_enabled)} on) and {x} {'non-zero' if v else 'zero'}, no write of {f} can execute with a non-zero value ({total[f]} writes examined): the stage that the host code assumes computes it for such models is itself switched off by the flag, so {f} keeps its previous value",
+            "",
+          ),
+          sample={"flag": flag, "field": f, "model_atom": x, "value": v, "live_writes": len(wit[f])},
+        )
   return n
